@@ -36,6 +36,14 @@ pub async fn sweep(h: &mut Hyb, via: &'static str) -> Vec<Res> {
 pub async fn end_of_workload(h: &mut Hyb) {
     let prop = h.case.property.clone();
     match prop.as_str() {
+        "C07" => {
+            if h.cache.is_some() && !ST.with(|s| s.borrow().closed) {
+                if let Some(c) = h.cache.clone() {
+                    c.storage().wait().await;
+                }
+                c07_checkpoint(h, "after-wait").await;
+            }
+        }
         "C01" | "C17" | "C12" | "C15" | "C10" => {
             if h.cache.is_some() && !ST.with(|s| s.borrow().closed) {
                 let rs = sweep(h, "final-sweep").await;
@@ -45,6 +53,13 @@ pub async fn end_of_workload(h: &mut Hyb) {
             }
         }
         "C04" => c04_crash_enumeration(h).await,
+        "C03" => {
+            if h.case.get("live_corrupt") == 0 {
+                c03_fault_enumeration(h).await
+            } else if h.cache.is_some() {
+                let _ = sweep(h, "final-sweep").await;
+            }
+        }
         _ => {}
     }
 }
@@ -53,6 +68,7 @@ pub fn post(case: &Case) {
     let _ = Op::Clear;
     match case.property.as_str() {
         "C04" => c04_post(case),
+        "C03" => c03_post(case),
         "C12" => c12(case),
         "C15" => c15(case),
         _ => {}
@@ -837,6 +853,380 @@ pub fn c04_post(case: &Case) {
                 }
             }
             _ => {}
+        }
+    }
+}
+
+// ---------------------------------------------------------------------------------------------------------------
+// C03: corrupted or misdirected disk bytes never surface as a cached value.
+
+#[derive(Clone, Debug)]
+pub enum Fault {
+    BitFlip { part: usize, page: usize, bit: usize },
+    ZeroPage { part: usize, page: usize },
+    SwapInBlock { part: usize, a: usize, b: usize },
+    SwapAcrossBlocks { part_a: usize, part_b: usize, page: usize },
+    /// replace the page by the `gen`-th older content it had earlier in the run
+    Stale { part: usize, page: usize, generation: usize },
+}
+
+fn apply_fault(img: &mut [Vec<u8>], f: &Fault, history: &std::collections::BTreeMap<(usize, usize), Vec<Vec<u8>>>) {
+    use crate::simdev::PAGE;
+    match f {
+        Fault::BitFlip { part, page, bit } => {
+            img[*part][page * PAGE + bit / 8] ^= 1 << (bit % 8);
+        }
+        Fault::ZeroPage { part, page } => img[*part][page * PAGE..(page + 1) * PAGE].fill(0),
+        Fault::SwapInBlock { part, a, b } => {
+            let pa = img[*part][a * PAGE..(a + 1) * PAGE].to_vec();
+            let pb = img[*part][b * PAGE..(b + 1) * PAGE].to_vec();
+            img[*part][a * PAGE..(a + 1) * PAGE].copy_from_slice(&pb);
+            img[*part][b * PAGE..(b + 1) * PAGE].copy_from_slice(&pa);
+        }
+        Fault::SwapAcrossBlocks { part_a, part_b, page } => {
+            let pa = img[*part_a][page * PAGE..(page + 1) * PAGE].to_vec();
+            let pb = img[*part_b][page * PAGE..(page + 1) * PAGE].to_vec();
+            img[*part_a][page * PAGE..(page + 1) * PAGE].copy_from_slice(&pb);
+            img[*part_b][page * PAGE..(page + 1) * PAGE].copy_from_slice(&pa);
+        }
+        Fault::Stale { part, page, generation } => {
+            if let Some(h) = history.get(&(*part, *page)) {
+                if let Some(old) = h.get(*generation) {
+                    img[*part][page * PAGE..(page + 1) * PAGE].copy_from_slice(old);
+                }
+            }
+        }
+    }
+}
+
+/// Older contents of every page (excluding what it holds now), oldest first.
+fn page_history() -> std::collections::BTreeMap<(usize, usize), Vec<Vec<u8>>> {
+    use crate::simdev::{self, PAGE};
+    simdev::DISK.with(|d| {
+        let d = d.borrow();
+        let mut cur: std::collections::BTreeMap<(usize, usize), Vec<u8>> = Default::default();
+        let mut hist: std::collections::BTreeMap<(usize, usize), Vec<Vec<u8>>> = Default::default();
+        for w in d.writes.iter().filter(|w| w.apply_seq.is_some()) {
+            for (i, chunk) in w.data.chunks(PAGE).enumerate() {
+                if chunk.len() < PAGE {
+                    continue;
+                }
+                let key = (w.part, w.offset / PAGE + i);
+                if let Some(prev) = cur.insert(key, chunk.to_vec()) {
+                    if prev != chunk {
+                        let h = hist.entry(key).or_default();
+                        if h.last() != Some(&prev) {
+                            h.push(prev);
+                        }
+                    }
+                }
+            }
+        }
+        hist
+    })
+}
+
+/// End of the C03 workload: graceful close, then one follow-up execution per fault on the closed image.
+pub async fn c03_fault_enumeration(h: &mut Hyb) {
+    use crate::simdev::{self, PAGE};
+    let case = h.case.clone();
+    let thorough = case.get("thorough") != 0;
+    h.shutdown(true).await;
+    let clean: Vec<Vec<u8>> = simdev::image();
+    let history = std::sync::Arc::new(page_history());
+    let clean = std::sync::Arc::new(clean);
+    // pages that hold something
+    let mut used: Vec<(usize, usize)> = vec![];
+    for (p, bytes) in clean.iter().enumerate() {
+        for (i, c) in bytes.chunks(PAGE).enumerate() {
+            if c.iter().any(|b| *b != 0) {
+                used.push((p, i));
+            }
+        }
+    }
+    let g = crate::hybscn::geo(&case);
+    let first_block = if g.tomb { 1 } else { 0 };
+    let nparts = clean.len();
+    let pages_per_block = g.block_size / PAGE;
+    let mut faults: Vec<Fault> = vec![];
+    let mut gen_for = |part: usize, page: usize, faults: &mut Vec<Fault>, all: bool| {
+        let draw = |n: usize| crate::choice::io_draw(n.max(1));
+        if all || draw(5) == 0 {
+            faults.push(Fault::BitFlip { part, page, bit: draw(PAGE * 8) });
+        }
+        if all || draw(5) == 0 {
+            faults.push(Fault::ZeroPage { part, page });
+        }
+        if part >= first_block {
+            if all || draw(5) == 0 {
+                let other = draw(pages_per_block);
+                if other != page {
+                    faults.push(Fault::SwapInBlock { part, a: page, b: other });
+                }
+            }
+            if (all || draw(5) == 0) && nparts - first_block >= 2 {
+                let other = first_block + draw(nparts - first_block);
+                if other != part {
+                    faults.push(Fault::SwapAcrossBlocks { part_a: part, part_b: other, page });
+                }
+            }
+        }
+        if let Some(hs) = history.get(&(part, page)) {
+            if all {
+                for generation in 0..hs.len().min(4) {
+                    faults.push(Fault::Stale { part, page, generation });
+                }
+            } else if draw(3) == 0 {
+                faults.push(Fault::Stale { part, page, generation: draw(hs.len()) });
+            }
+        }
+    };
+    if thorough {
+        for (p, i) in &used {
+            gen_for(*p, *i, &mut faults, true);
+        }
+    } else {
+        // sample pages, biased to used ones
+        for _ in 0..10 {
+            if used.is_empty() {
+                break;
+            }
+            let (p, i) = used[crate::choice::io_draw(used.len())];
+            gen_for(p, i, &mut faults, false);
+        }
+    }
+    // random multi-fault sets
+    let multi = if thorough { 6 } else { 2 };
+    let mut jobs: Vec<Vec<Fault>> = faults.into_iter().map(|f| vec![f]).collect();
+    for _ in 0..multi {
+        if used.len() < 2 {
+            break;
+        }
+        let mut set = vec![];
+        for _ in 0..(2 + crate::choice::io_draw(3)) {
+            let (p, i) = used[crate::choice::io_draw(used.len())];
+            let mut one = vec![];
+            gen_for(p, i, &mut one, false);
+            set.extend(one.into_iter().take(1));
+        }
+        if !set.is_empty() {
+            jobs.push(set);
+        }
+    }
+    let cap = if thorough { 4000 } else { 24 };
+    jobs.truncate(cap);
+    ST.with(|s| s.borrow_mut().crash_writes = simdev::writes_len());
+    for (j, set) in jobs.into_iter().enumerate() {
+        let case = case.clone();
+        let clean = clean.clone();
+        let history = history.clone();
+        let label = format!("recovery with {:?}", set);
+        crate::run::push_follow_up(
+            label.chars().take(160).collect(),
+            Box::new(move || {
+                let mut img: Vec<Vec<u8>> = (*clean).clone();
+                for f in &set {
+                    apply_fault(&mut img, f, &history);
+                    hist::fault(match f {
+                        Fault::BitFlip { .. } => "bit_flip",
+                        Fault::ZeroPage { .. } => "zero_page",
+                        Fault::SwapInBlock { .. } => "page_swap_within_block",
+                        Fault::SwapAcrossBlocks { .. } => "page_swap_across_blocks",
+                        Fault::Stale { .. } => "stale_page_generation",
+                    });
+                }
+                simdev::set_image(img);
+                simdev::DISK.with(|d| d.borrow_mut().inflight = 0);
+                hist::ev("corrupt_begin", j as u64, set.len() as u64, 0);
+                let keys = case.get("keys").max(1) as u64;
+                shuttle::future::block_on(async move {
+                    let mut h = Hyb { g: crate::hybscn::geo(&case), case: case.clone(), ctl: crate::hybscn::new_ctl(&case), cache: None, held: vec![] };
+                    if !h.reopen().await {
+                        return;
+                    }
+                    let cache = h.cache.clone().unwrap();
+                    for k in 0..keys {
+                        let code: u64 = match cache.get(&k).await {
+                            Ok(Some(e)) => match check_value(e.value()) {
+                                crate::types::Tagged::Ok { key, ver, .. } if key == k => ver as u64,
+                                crate::types::Tagged::Ok { .. } => (u32::MAX - 3) as u64,
+                                crate::types::Tagged::Garbage => (u32::MAX - 2) as u64,
+                            },
+                            Ok(None) => u32::MAX as u64,
+                            Err(_) => (u32::MAX - 1) as u64,
+                        };
+                        hist::ev("corrupt_get", j as u64, k, code);
+                    }
+                    hist::ev("corrupt_end", j as u64, 0, 0);
+                    drop(cache);
+                    crate::run::phase_done();
+                    h.shutdown(false).await;
+                });
+            }),
+        );
+    }
+}
+
+pub fn c03_post(_case: &Case) {
+    let evs = hist::events_clone();
+    let versions: std::collections::BTreeMap<u64, std::collections::BTreeSet<u32>> =
+        ST.with(|s| s.borrow().model.iter().map(|(k, m)| (*k, m.versions.keys().copied().collect())).collect());
+    let mut hits = 0u64;
+    for e in evs.iter().filter(|e| e.kind == "corrupt_get") {
+        let (j, k, code) = (e.a, e.b, e.c);
+        hist::probe("c03_lookup_judged");
+        if code == (u32::MAX - 2) as u64 {
+            hist::violation("C03", "garbage-deserialized", format!("fault set #{j}: lookup of key {k} returned bytes that no insert produced"), &[]);
+        } else if code == (u32::MAX - 3) as u64 {
+            hist::violation("C03", "foreign-value", format!("fault set #{j}: lookup of key {k} returned another key's value"), &[]);
+        } else if code < (u32::MAX - 3) as u64 {
+            hits += 1;
+            if !versions.get(&k).map(|v| v.contains(&(code as u32))).unwrap_or(false) {
+                hist::violation("C03", "garbage-deserialized", format!("fault set #{j}: lookup of key {k} returned unknown version v{code}"), &[]);
+            }
+        } else if code == (u32::MAX - 1) as u64 {
+            hist::probe("c03_lookup_error");
+        }
+    }
+    if hits > 0 {
+        hist::set_nontrivial();
+    }
+}
+
+// ---------------------------------------------------------------------------------------------------------------
+// C07: what the flusher writes is exactly what recovery and lookups read back.
+
+/// Ground truth from the write log: per block, the entries written since the block's last clean, by offset.
+fn written_per_block(case: &Case) -> std::collections::BTreeMap<usize, Vec<crate::parser::Located>> {
+    use crate::{parser, simdev};
+    let g = crate::hybscn::geo(case);
+    let first_block = if g.tomb { 1 } else { 0 };
+    simdev::DISK.with(|d| {
+        let d = d.borrow();
+        let mut per: std::collections::BTreeMap<usize, std::collections::BTreeMap<usize, parser::Located>> = Default::default();
+        for w in d.writes.iter().filter(|w| w.apply_seq.is_some() && w.part >= first_block) {
+            if w.offset == 0 && w.data.len() == simdev::PAGE && w.data.iter().all(|b| *b == 0) {
+                per.remove(&w.part);
+                continue;
+            }
+            // index writes do not parse as entries (no entry magic at their start)
+            for e in parser::parse_entries(&w.data) {
+                if !e.checksum_ok {
+                    continue;
+                }
+                per.entry(w.part).or_default().insert(
+                    w.offset + e.at,
+                    parser::Located { hash: e.header.hash, sequence: e.header.sequence, offset: w.offset + e.at, len: e.len },
+                );
+            }
+        }
+        per.into_iter().map(|(p, m)| (p, m.into_values().collect())).collect()
+    })
+}
+
+/// Called at every quiescent point (after wait() returned, after reopen).
+pub async fn c07_checkpoint(h: &mut Hyb, what: &'static str) {
+    use crate::{parser, simdev};
+    let case = h.case.clone();
+    let Some(cache) = h.cache.clone() else { return };
+    let g = crate::hybscn::geo(&case);
+    let first_block = if g.tomb { 1 } else { 0 };
+    let truth = written_per_block(&case);
+    let img = simdev::image();
+    hist::probe("c07_checkpoint");
+    let mut newest: std::collections::BTreeMap<u64, (u64, usize, usize)> = Default::default();
+    for (p, bytes) in img.iter().enumerate().skip(first_block) {
+        let (located, problems) = parser::scan_block(bytes, g.blob_index_size);
+        for pr in problems {
+            hist::violation("C07", "layout-violation", format!("{what}: block {}: {pr}", p - first_block), &[]);
+        }
+        let want: Vec<parser::Located> = truth.get(&p).cloned().unwrap_or_default();
+        if !located.is_empty() || !want.is_empty() {
+            hist::probe("c07_block_compared");
+        }
+        if located != want {
+            // first difference
+            let i = located.iter().zip(want.iter()).position(|(a, b)| a != b).unwrap_or(located.len().min(want.len()));
+            hist::violation(
+                "C07",
+                "scan-differs-from-written",
+                format!(
+                    "{what}: block {}: scanning the image finds {} entries, the write log says {} were written in this generation; first difference at #{i}: scanned {:?} vs written {:?}",
+                    p - first_block,
+                    located.len(),
+                    want.len(),
+                    located.get(i),
+                    want.get(i)
+                ),
+                &[("blob_pages", case.get("blob_pages").to_string())],
+            );
+        }
+        if located.len() >= 2 {
+            hist::set_nontrivial();
+        }
+        for l in located {
+            let e = newest.entry(l.hash).or_insert((l.sequence, p, l.offset));
+            if l.sequence >= e.0 {
+                *e = (l.sequence, p, l.offset);
+            }
+        }
+    }
+    // every key the disk tier claims to hold can actually be loaded
+    let keys = case.get("keys").max(1) as u64;
+    for k in 0..keys {
+        if cache.storage().may_contains(&k) {
+            hist::probe("c07_claimed_key_loaded");
+            match cache.storage().load(&k).await {
+                Ok(foyer::Load::Entry { key, value, .. }) => {
+                    if key != k {
+                        hist::violation("C07", "claimed-but-unloadable", format!("{what}: load of key {k} returned key {key}"), &[]);
+                    } else if let crate::types::Tagged::Garbage = check_value(&value) {
+                        hist::violation("C07", "claimed-but-unloadable", format!("{what}: load of key {k} returned garbage"), &[]);
+                    }
+                }
+                Ok(foyer::Load::Piece { .. }) => {}
+                Ok(foyer::Load::Miss) | Ok(foyer::Load::Throttled) => {
+                    hist::violation(
+                        "C07",
+                        "claimed-but-unloadable",
+                        format!("{what}: the disk tier claims to hold key {k} (may_contains) but loading it from the recorded position misses"),
+                        &[],
+                    );
+                }
+                Err(e) => {
+                    hist::violation("C07", "claimed-but-unloadable", format!("{what}: load of key {k} failed: {e}"), &[]);
+                }
+            }
+        }
+    }
+    // after a reopen: every newest entry the image holds (not deleted since) is indexed and loads
+    if what == "after-reopen" {
+        let deleted: std::collections::BTreeSet<u64> = ST.with(|s| s.borrow().model.iter().filter(|(_, m)| m.cur.is_none()).map(|(k, _)| *k).collect());
+        // tombstones in the log (deletes, and invalidations left by entries the flusher had to drop)
+        let mut tomb: std::collections::BTreeMap<u64, u64> = Default::default();
+        if g.tomb {
+            for c in img[0].chunks_exact(16) {
+                let (h, s) = (u64::from_be_bytes(c[0..8].try_into().unwrap()), u64::from_be_bytes(c[8..16].try_into().unwrap()));
+                if s != 0 {
+                    let e = tomb.entry(h).or_insert(0);
+                    *e = (*e).max(s);
+                }
+            }
+        }
+        for (hash, (seq, _p, _off)) in newest {
+            let k = hash; // identity hasher in C07 cases
+            if k >= keys || deleted.contains(&k) || tomb.get(&hash).map(|t| *t >= seq).unwrap_or(false) {
+                continue;
+            }
+            hist::probe("c07_recovered_key_checked");
+            if !cache.storage().may_contains(&k) {
+                hist::violation(
+                    "C07",
+                    "written-but-not-recovered",
+                    format!("after-reopen: the image holds an intact newest entry of key {k} but recovery did not index it"),
+                    &[("sequence_regression_in_a_block", block_has_sequence_regression(&case).to_string())],
+                );
+            }
         }
     }
 }
